@@ -24,6 +24,16 @@ fn main() {
     let verif_dir = std::env::var("VERIF_DIR").unwrap_or_else(|_| "/verif".to_string()).into();
     let ctx = Ctx { id, tier, seed, threads, start: Instant::now(), verif_dir };
     install_panic_hook();
+    // wall-clock watchdog: its firing is never a violation, only "inconclusive"
+    let limit = std::env::var("VERIF_WATCHDOG_S").ok().and_then(|s| s.parse().ok()).unwrap_or(if tier == Tier::Quick { 1500u64 } else { 6 * 3600 });
+    {
+        let id = id.to_string();
+        std::thread::spawn(move || {
+            std::thread::sleep(std::time::Duration::from_secs(limit));
+            println!("INCONCLUSIVE property={id} reason=watchdog: the monitor did not finish within {limit} s");
+            std::process::exit(2);
+        });
+    }
     let code = vharness::mon::dispatch(&ctx);
     std::process::exit(code);
 }
